@@ -2,6 +2,7 @@ SPECIFICATION Spec
 CONSTANTS
   CatchReceiveError = FALSE
   ResetOnAccept = TRUE
+  ResetOnEof = FALSE
   CatchSendError = TRUE
   MaxConns = 3
   MaxEdits = 1
